@@ -88,6 +88,36 @@ def predicate_rows():
     return rows
 
 
+METHS = {None: "None", "map-reduce": "(Some MMapReduce)", "cohorts": "(Some MCohorts)", "blockwise": "(Some MBlockwise)"}
+METH = {"map-reduce": "MMapReduce", "cohorts": "MCohorts", "blockwise": "MBlockwise"}
+CHOOSE_AGGS = ["sum", "nanmean", "argmax", "nanargmin", "median", "nanquantile", "first"]
+
+
+def choose_method_rows():
+    """flox.core._choose_method on EVERY point of its (abstracted) domain: requested method x planner's preference x
+    kind of aggregation (plain / arg reduction / blockwise-only) x (nax == by.ndim)"""
+    from flox.aggregations import _initialize_aggregation
+
+    rows = []
+    for name in CHOOSE_AGGS:
+        fk = {"q": 0.5} if "quantile" in name else {}
+        agg = _initialize_aggregation(name, None, np.dtype("float64"), None, 0, fk)
+        is_arg = bool(fc._is_arg_reduction(agg))
+        bw_only = agg.chunk == (None,)
+        for method in METHS:
+            for pref in METH:
+                for nax, ndim in ((1, 1), (1, 2), (2, 2)):
+                    by = np.zeros((2,) * ndim, dtype=int)
+                    try:
+                        r = fc._choose_method(method, pref, agg, by, nax)
+                        out = f"(CRet {METH.get(r, 'MOther')})"
+                    except Exception as e:  # noqa: BLE001
+                        out = f"(CRaise {exc_lit(e)})"
+                    rows.append(f"  ({q(name)}, {str(is_arg).lower()}, {str(bw_only).lower()}, {METHS[method]}, {METH[pref]}, "
+                                f"{str(nax == ndim).lower()}, {out})")
+    return rows
+
+
 def main(out):
     srcs = ["/repo/flox/core.py", "/repo/flox/aggregations.py", "/repo/flox/xrdtypes.py"]
     h = hashlib.sha256()
@@ -107,7 +137,11 @@ def main(out):
         "(* (func, input dtype, dtype= argument, fill_value kind, result dtype or exception) *)\n"
         "Definition final_dtype_rows : list (fname * dt * option dt * fillkind * outcome) := [\n" + ";\n".join(final_dtype_rows()) + "\n].\n\n"
         "(* (func, _is_arg_reduction, _is_first_last_reduction, _is_minmax_reduction, _is_bool_supported_reduction) *)\n"
-        "Definition predicate_rows : list (string * bool * bool * bool * bool) := [\n" + ";\n".join(predicate_rows()) + "\n].\n"
+        "Definition predicate_rows : list (string * bool * bool * bool * bool) := [\n" + ";\n".join(predicate_rows()) + "\n].\n\n"
+        "Inductive meth : Type := MMapReduce | MCohorts | MBlockwise | MOther.\n"
+        "Inductive choice : Type := CRet (m : meth) | CRaise (e : exc).\n"
+        "(* _choose_method: (aggregation, is arg reduction, blockwise-only, requested method, planner's preference, nax == by.ndim, outcome) *)\n"
+        "Definition choose_method_rows : list (string * bool * bool * option meth * meth * bool * choice) := [\n" + ";\n".join(choose_method_rows()) + "\n].\n"
     )
     try:
         old = open(out).read()
